@@ -2,7 +2,7 @@
 # Confirms a seeded change: demo passes on the unchanged tree; with the patch the tree builds, the
 # existing suite passes, and the demo fails. usage: confirm_seed.sh <seed-dir> [pkg-dir-for-the-demo, default .]
 d=$(readlink -f "$1"); dest=${2:-.}; pat="Seed|Demo|TestC[0-9][0-9]|Forged|NoName|FallbackHost"; [ "$dest" != "." ] && pat="."; [ -n "$3" ] && pat="$3"
-RACEFLAG=${CONFIRM_RACE:+-race}
+RACEFLAG="${CONFIRM_RACE:+-race} ${CONFIRM_TAGS:+-tags $CONFIRM_TAGS}"
 wt=/tmp/cs-$$-$RANDOM
 export GOFLAGS=-mod=mod GOPROXY=off GOSUMDB=off GOTOOLCHAIN=local
 git -C /repo worktree add -q "$wt" HEAD || exit 2
